@@ -91,3 +91,32 @@ package dnsserver
 //@            dns.OPT.Hdr, dns.OPT.Option, allelems(dns.EDNS0), dns.EDNS0_PADDING.Padding
 //@   ensures stream-limit: truncSize[resp] == 65535
 //@   ensures tc-implies-empty-answer: resp.Truncated ==> len(resp.Answer) == 0
+
+// The two-byte length prefix of stream transports: a message longer than
+// 65535 bytes is an error, never a truncated prefix.
+//
+//@ func packWithPrefix
+//@   property C08
+//@   requires m != nil
+//@   modifies allelems(byte), m.Compress
+//@   ensures stream-bound: err == nil ==> len(packed) >= 2 && len(packed) - 2 <= 65535 &&
+//@             packed[0] * 256 + packed[1] == len(packed) - 2
+//@   ensures err != nil ==> packed == nil
+
+//@ func findOption[*github.com/miekg/dns.EDNS0_TCP_KEEPALIVE]
+//@   property C08
+//@   requires rr != nil && optsValid(rr)
+//@   ensures o != nil ==> (exists i int :: 0 <= i && i < len(rr.Option) && rr.Option[i] == asiface(o))
+//@   ensures o == nil ==> !hasKeepAlive(rr)
+//@   loop 1 invariant -1 <= #i && #i < len(rr.Option) && o == nil
+//@   loop 1 invariant forall k int :: 0 <= k && k <= #i ==> !isKeepAlive(rr.Option[k])
+
+//@ func (*tcpResponseWriter).addTCPKeepAlive
+//@   property C08
+//@   requires req != nil && resp != nil
+//@   requires forall i int :: 0 <= i && i < len(req.Extra) && isOPT(req.Extra[i]) ==> ref(req.Extra[i]) != 0 && optsValid(optAt(req, i))
+//@   requires forall i int :: 0 <= i && i < len(resp.Extra) && isOPT(resp.Extra[i]) ==> ref(resp.Extra[i]) != 0 && optsValid(optAt(resp, i))
+//@   modifies dns.OPT.Option, dns.EDNS0_TCP_KEEPALIVE.Timeout, allelems(dns.EDNS0)
+//@   ensures only-when-requested: old(noOPT(req)) || old(noOPT(resp)) ||
+//@             (forall i int :: old(lastOPT(req, i)) ==> !old(hasKeepAlive(optAt(req, i)))) ==>
+//@             (forall o *dns.OPT :: o.Option == old(o.Option))
